@@ -492,7 +492,9 @@ impl CommandHub {
                 })
                 .collect();
 
-            let next_timeout = self.tasks.values().filter_map(|t| t.timeout).max();
+            // wake up for the earliest pending deadline: waiting for the latest one left every
+            // earlier deadline unnoticed until then (or until some unrelated event woke the loop)
+            let next_timeout = self.tasks.values().filter_map(|t| t.timeout).min();
             let mut poll_timeout = next_timeout.map(|t| t.saturating_duration_since(now));
 
             if self.run_state == ServerState::Stopping {
